@@ -368,6 +368,15 @@ def ofixDirect (gi : List VId) : List VId → Nat → List VId × List Node × N
     else
       (o :: (ofixDirect gi rest next).1, (ofixDirect gi rest next).2.1, (ofixDirect gi rest next).2.2)
 
+/-- `output.name = f"{output.name}_orig"` (output_fix.py:132) on a value that is also an initializer
+    re-keys it in the initializer dictionary (`Value.name` setter, _core.py:3290-3298: pop, then
+    insert): the entry moves to the end -/
+def moveToEnd (o : VId) (inits : List (VId × Tensor)) : List (VId × Tensor) :=
+  inits.filter (fun p => p.1 != o) ++ inits.filter (fun p => !(p.1 != o))
+
+/-- the values the direct-output Identity nodes read, in the order they were fixed -/
+def fixedInputs (ns : List Node) : List VId := ns.filterMap (fun n => n.ins.head?.join)
+
 mutual
 /-- per graph the multi-use Identity nodes are appended before the direct-output ones (the pass runs
     `_alias_multi_used_outputs` over all graphs, then `_alias_direct_outputs`) -/
@@ -376,7 +385,8 @@ def ofixG (gi : List VId) (next : Nat) : Graph → Graph × Nat
     let rn := ofixNodes gi next nodes
     let r1 := ofixMulti [] outputs rn.2
     let r2 := ofixDirect gi r1.1 r1.2.2
-    (.mk inputs r2.1 inits (rn.1 ++ r1.2.1 ++ r2.2.1), r2.2.2)
+    (.mk inputs r2.1 ((fixedInputs r2.2.1).foldl (fun acc o => moveToEnd o acc) inits)
+      (rn.1 ++ r1.2.1 ++ r2.2.1), r2.2.2)
 def ofixNodes (gi : List VId) (next : Nat) : List Node → List Node × Nat
   | [] => ([], next)
   | .mk op attrs ins outs bodies :: ns =>
@@ -516,7 +526,7 @@ def PassId.run : PassId → Model → Model
     before every step of every generated sequence) -/
 def PassId.pre : PassId → Model → Bool
   | .dedup _, m => validModel m && dedupFaithfulG m.graph
-  | .rmInitInputs, _ | .addInitInputs, _ | .outputFix, _ | .clearMeta, _ | .nameFix, _ => true
+  | .rmInitInputs, _ | .addInitInputs, _ | .clearMeta, _ | .nameFix, _ => true
   | .topoSort, m => validModel m
   | _, m => validModel m
 
